@@ -157,6 +157,12 @@ type c02bEntry struct {
 	expires int64
 	deleted int64
 	data    byte
+	secret  bool
+	crown   bool
+}
+
+func c02bPermitted(e c02bEntry, local, internal bool) bool {
+	return rt.All(rt.Any(!e.secret, internal), rt.Any(!e.crown, local))
 }
 
 var c02bKeySet = []string{"a", "a/b", "ab", "b"}
@@ -167,6 +173,12 @@ func c02bValid(e c02bEntry, now int64) bool {
 
 func c02bNewRecord(key string, e c02bEntry) *record.Wrapper {
 	m := &record.Meta{Created: 1, Modified: 2, Expires: e.expires, Deleted: e.deleted}
+	if e.secret {
+		m.MakeSecret()
+	}
+	if e.crown {
+		m.MakeCrownJewel()
+	}
 	w, _ := record.NewWrapper("t:"+key, m, 1 /* RAW */, []byte{e.data})
 	return w
 }
@@ -210,6 +222,10 @@ func VerifC02_BBoltBackend() {
 	rt.Assume(now < 1<<31-2000)
 	model := map[string]c02bEntry{}
 
+	// the operation
+	op := rt.Choice("op", 7)
+	local, internal := true, true // (protected records and callers without privileges: VerifC03_BBoltProtectedRecords)
+
 	// pre-state: 0..2 stored records - one with any key, expiry and deletion
 	// state, and possibly a second one that is valid or expired
 	if rt.Bool("pre0") {
@@ -231,7 +247,7 @@ func VerifC02_BBoltBackend() {
 	}
 
 	// one operation
-	switch rt.Choice("op", 7) {
+	switch op {
 	case 0: // get
 		key := c02bKeySet[rt.Choice("key", len(c02bKeySet))]
 		r, err := b.Get(key)
@@ -274,7 +290,7 @@ func VerifC02_BBoltBackend() {
 		rt.Assert(<-errs == nil, "bbolt/batch-ok")
 	case 4: // query: exactly the valid records below the prefix
 		prefix := []string{"", "a", "a/", "ab", "b", "c"}[rt.Choice("prefix", 6)]
-		it, err := b.Query(query.New("t:"+prefix), true, true)
+		it, err := b.Query(query.New("t:"+prefix), local, internal)
 		rt.Assert(err == nil, "bbolt/query-ok")
 		if err != nil {
 			return
@@ -286,7 +302,7 @@ func VerifC02_BBoltBackend() {
 		rt.Assert(it.Err() == nil, "bbolt/query-no-error")
 		for _, k := range c02bKeySet {
 			want := 0
-			if c02bValid(model[k], now) && c02bHasPrefix(k, prefix) {
+			if c02bValid(model[k], now) && c02bHasPrefix(k, prefix) && c02bPermitted(model[k], local, internal) {
 				want = 1
 			}
 			rt.Assert(seen[k] == want, "bbolt/query-yields-exactly-the-visible-records-below-the-prefix")
@@ -331,12 +347,12 @@ func VerifC02_BBoltBackend() {
 	case 6: // purge: nothing visible below the prefix is left, the rest is untouched
 		shadow := rt.Bool("shadowdelete")
 		prefix := []string{"", "a", "a/", "ab", "c"}[rt.Choice("prefix", 5)]
-		n, err := b.Purge(context.Background(), query.New("t:"+prefix), true, true, shadow)
+		n, err := b.Purge(context.Background(), query.New("t:"+prefix), local, internal, shadow)
 		rt.Assert(err == nil, "bbolt/purge-ok")
 		purged := 0
 		for _, k := range c02bKeySet {
 			e := model[k]
-			if e.present && e.deleted == 0 && c02bHasPrefix(k, prefix) {
+			if e.present && e.deleted == 0 && c02bHasPrefix(k, prefix) && c02bPermitted(e, local, internal) {
 				purged++
 				if shadow {
 					e.deleted = now
@@ -380,4 +396,68 @@ func VerifC02_BBoltBackend() {
 	}
 	_ = b.Shutdown()
 	rt.Reach("bbolt-end")
+}
+
+// ---- C03 on the bbolt backend: queries and purges never list or remove a
+// protected record for a caller without the privilege (run by the C03 check) ----
+
+func VerifC03_BBoltProtectedRecords() {
+	rt.NoTimers()
+	rt.SchedYieldOnly(true)
+	rt.FsFaults(0)
+	st, err := NewBBolt("t", rt.Root("/data/t"))
+	rt.Assert(err == nil, "bboltprot/open")
+	if err != nil {
+		return
+	}
+	b := st.(*BBolt)
+	now := time.Now().Unix()
+	rt.Assume(now > 1<<30+2000)
+	rt.Assume(now < 1<<31-2000)
+	prot := c02bEntry{present: true, data: 1, secret: rt.Bool("secret"), crown: rt.Bool("crownjewel")}
+	open := c02bEntry{present: true, data: 2}
+	_, err = b.Put(c02bNewRecord("a/p", prot))
+	rt.Assert(err == nil, "bboltprot/put")
+	_, err = b.Put(c02bNewRecord("a/o", open))
+	rt.Assert(err == nil, "bboltprot/put-open")
+	local, internal := rt.Bool("local"), rt.Bool("internal")
+	permitted := c02bPermitted(prot, local, internal)
+	if rt.Bool("purge") {
+		shadow := rt.Bool("shadowdelete")
+		n, err := b.Purge(context.Background(), query.New("t:a/"), local, internal, shadow)
+		rt.Assert(err == nil, "bboltprot/purge-ok")
+		r, gerr := b.Get("a/p")
+		if permitted {
+			rt.Assert(n == 2, "bboltprot/purge-count-with-permission")
+		} else {
+			rt.Assert(n == 1, "bboltprot/purge-counts-only-permitted-records")
+			rt.Assert(gerr == nil, "bboltprot/denied-record-survives-the-purge")
+			if gerr == nil {
+				rt.Assert(!r.Meta().IsDeleted(), "bboltprot/denied-record-not-marked-deleted")
+			}
+		}
+	} else {
+		it, err := b.Query(query.New("t:a/"), local, internal)
+		rt.Assert(err == nil, "bboltprot/query-ok")
+		if err != nil {
+			return
+		}
+		sawProt, sawOpen := 0, 0
+		for r := range it.Next {
+			switch r.DatabaseKey() {
+			case "a/p":
+				sawProt++
+			case "a/o":
+				sawOpen++
+			}
+		}
+		rt.Assert(sawOpen == 1, "bboltprot/open-record-listed")
+		if permitted {
+			rt.Assert(sawProt == 1, "bboltprot/permitted-record-listed")
+		} else {
+			rt.Assert(sawProt == 0, "bboltprot/denied-record-never-listed")
+		}
+	}
+	_ = b.Shutdown()
+	rt.Reach("bboltprot-end")
 }
